@@ -64,6 +64,8 @@ LITERAL = [
     ('{[#S][#N][#M][#N]}.{#S=C@1C=[>],#N=[<]=C@2C(F)=[>],#M=[<]=C@3C=[>]}', 'C@1C=C@2C(F)=C@3C=C@2CF'),
     ('{[#A][#X]([#B])([#C])[#D]}.{#A=F[$],#X=[$][C;x=@x]([$])([$])[$],#B=Cl[$],#C=Br[$],#D=I[$]}', 'F[C;x=@x](Cl)(Br)I'),
     ('{[#A][#X][#B]}.{#A=F[$],#X=[$][C;x=@x](Cl)([H])[$],#B=O[$]}', 'F[C;x=@x](Cl)([H])O'),
+    # more than ten fragments, the marked substituent and the double bond in fragments 10 and 11
+    ('{[#E][#M]|8[#L][#B]}.{#E=C[>],#M=[<]C[>],#L=[<]N@1[$],#B=[$]@1C=C@2F}', 'CCCCCCCCCN@1C=C@2F'),
 ]
 
 
